@@ -299,10 +299,13 @@ def run(tier: str) -> int:
     src, dst = configs(tier)
     worlds = [C12Src(**kw) for kw in src] + [C12Dst(**kw) for kw in dst]
     run_.bounds = {"sender_configs": len(src), "receiver_configs": len(dst), "segment_len": 2, "cancel_requests_per_run": 2}
-    kw = dict(check_cycles=False, validate_stride=997, validate_terminals=3, n_samples=1, max_states=1_000_000)
+    kw = dict(check_cycles=False, validate_stride=997, validate_terminals=3, n_samples=1, max_states=1_000_000, max_wall=(600 if tier == 'quick' else None))
     big = [w for w in worlds if isinstance(w, C12Dst) and w.c["mode"] == "ack" and w.c["size"] >= 4]
     small = [w for w in worlds if w not in big]
     run_.add_all(explore_many(small, procs=NPROC, **kw))
     for w in big:
+        if run_.found_something():
+            run_.skip(w)  # verdict already decided; a defect can make the remaining graphs unboundedly large
+            continue
         run_.add(explore(w, procs=NPROC, **kw))
     return run_.finish(rule="complete reachable graph per configuration: cancel request with right / wrong id between any two calls at every step; EOF(cancel) at every point of file data reception")
